@@ -173,7 +173,7 @@ type Diff struct {
 	Desc  string `json:"desc"`
 }
 
-func lsString(ls [][]string) string {
+func LsString(ls [][]string) string {
 	var b strings.Builder
 	b.WriteByte('{')
 	for i, p := range ls {
@@ -186,7 +186,7 @@ func lsString(ls [][]string) string {
 	return b.String()
 }
 
-func floatEq(a, b float64) bool {
+func FloatEq(a, b float64) bool {
 	sa, sb := math.Float64bits(a) == value.StaleNaN, math.Float64bits(b) == value.StaleNaN
 	if sa != sb {
 		return false
@@ -250,7 +250,7 @@ func Compare(a, b CResult) Diff {
 			case i >= len(sa.Pts) || sb.Pts[j].T < sa.Pts[i].T:
 				return Diff{What: "points", Shape: "extraB", Desc: fmt.Sprintf("%s: point at t=%d only in B", k, sb.Pts[j].T)}
 			default:
-				if !floatEq(sa.F[i], sb.F[j]) {
+				if !FloatEq(sa.F[i], sb.F[j]) {
 					return Diff{What: "value", Shape: "value", Desc: fmt.Sprintf("%s t=%d: %v vs %v", k, sa.Pts[i].T, sa.F[i], sb.F[j])}
 				}
 				i++
@@ -272,7 +272,7 @@ func index(r CResult) (map[string]CSeries, string) {
 	m := map[string]CSeries{}
 	dup := ""
 	for _, s := range r.Series {
-		k := lsString(s.LS)
+		k := LsString(s.LS)
 		if _, ok := m[k]; ok {
 			dup = k
 		}
